@@ -1200,7 +1200,15 @@ def grease_tabulation(ctx, report, rule, base, f):
             for code in domain:
                 report.count(rule)
                 me = Me(code)
-                Evaluator({'self': me}, hook, nh).function(f.node)
+                try:
+                    Evaluator({'self': me}, hook, nh).function(f.node)
+                except (InvalidValue, Raised) as e:
+                    # the wrapper is the fallback of the vector parsers: an integer code it cannot be built for is a code point
+                    # the whole message is refused for
+                    report.add(rule, '%s@grease-decision' % sub.construct,
+                               'the wrapper cannot be built for the code %s: %s escapes (%s reserved by RFC 8701)' % (
+                                   hex(code), (str(e) or type(e).__name__)[:60], 'it is' if code in want else 'it is not'))
+                    break
                 got = getattr(me.value, 'value_type', None)
                 kept = getattr(me.value, 'code', None) == code and me.code == code
                 if (got is GREASE) != (code in want) or got not in (GREASE, UNKNOWN) or not kept:
